@@ -871,7 +871,8 @@ fn main() {
          one-record messages around the RFC RDATA of the alphabet (quick: windows starting in the first 8 RDATA octets, fixed fields on \
          every 8th seed; thorough: every window of every entry); structure-aware edits (16-bit windows x 8 boundary values; thorough: \
          S-substitutions, truncations) of 17 KiB..64 KiB seeds (quick: one seed, thorough: three) at the first/last 256 octets and \
-         0x3f80..0x4080; 22 growth families) that decodes and re-encodes: decode(encode(decode(b))) == decode(b), and \
+         0x3f80..0x4080; f6: consistent resizes of every inner length-prefixed field of every RDATA seed to every length of its width (see C01) \
+         and pairs at {0,1,39,40,63,64,255}^2; 22 growth families) that decodes and re-encodes: decode(encode(decode(b))) == decode(b), and \
          RDATA of every type other than NS/CNAME/PTR/MX/SOA/obsolete-1035/OPT is octet-identical (inputs with a compression pointer \
          inside a name that RFC 3597 forbids to compress are logged, not judged). distinct_nontrivial: direction 1 = distinct \
          encodings that contain a compression pointer, EDNS, TSIG or an extended rcode; direction 2 = distinct accepted inputs with at \
@@ -1181,6 +1182,31 @@ fn main() {
         flush(t, "f5", l);
     });
 
+    // f6: consistent resizes of inner length-prefixed fields (c01::layout): every field of every RDATA
+    // seed x every length of its width, enclosing lengths recomputed; pairs of RDATA fields at boundary values
+    ctx.par_run(rd_seeds.len() as u64, 1, |i, l| {
+        use c01::layout;
+        let (tag, rtype, w) = &rd_seeds[i as usize];
+        ctx.watch(l.worker, || format!("f6 {tag}"));
+        let Some(rd) = layout::rdata_layout(*rtype, w) else {
+            l.outcome("machinery:layout-table-does-not-fit-seed");
+            return;
+        };
+        let (tree, rd_at) = layout::message_tree(*rtype, rd);
+        let mut t = Tally::default();
+        let mut msg = vec![];
+        layout::resize_family(&tree, rd_at, |tr, _| {
+            msg.clear();
+            if layout::serialize(tr, &mut msg) && msg.len() <= 65535 {
+                judge_d2(&msg, false, &mut t, l, &|| json!({"dir": 2, "hex": hex::enc(&msg), "seed": tag}));
+            }
+        });
+        flush(t, "f6", l);
+    });
+    if ctx.outcome_count("machinery:layout-table-does-not-fit-seed") > 0 {
+        ctx.machinery_failure("f6: a layout table does not describe its seed RDATA");
+    }
+
     // f3L: structure-aware single edits of large seeds (17 KiB .. 64 KiB)
     let large = ext::large_seeds(&al, if thorough { &[0, 1, 2] } else { &[0] });
     ctx.set("d2_large_seeds", json!(large.iter().map(|s| json!({"tag": s.tag, "len": s.bytes.len()})).collect::<Vec<_>>()));
@@ -1237,7 +1263,7 @@ fn main() {
     });
 
     // vacuity
-    for k in ["d2:f5:roundtrip-ok", "d2:f5:rejected-by-decoder", "d2:large:roundtrip-ok", "d2:large:rejected-by-decoder", "d2:large:seed-roundtrip-ok", "d1:ok:compressed", "d1:ok:plain", "d2:f1:roundtrip-ok", "d2:f2:roundtrip-ok", "d2:f3:roundtrip-ok", "d2:f4:roundtrip-ok", "d2:f3:seed-roundtrip-ok", "d2:f3:rejected-by-decoder"] {
+    for k in ["d2:f6:roundtrip-ok", "d2:f6:rejected-by-decoder", "d2:f5:roundtrip-ok", "d2:f5:rejected-by-decoder", "d2:large:roundtrip-ok", "d2:large:rejected-by-decoder", "d2:large:seed-roundtrip-ok", "d1:ok:compressed", "d1:ok:plain", "d2:f1:roundtrip-ok", "d2:f2:roundtrip-ok", "d2:f3:roundtrip-ok", "d2:f4:roundtrip-ok", "d2:f3:seed-roundtrip-ok", "d2:f3:rejected-by-decoder"] {
         if ctx.outcome_count(k) == 0 {
             ctx.machinery_failure(&format!("vacuous run: outcome class {k} never occurred"));
         }
